@@ -35,7 +35,9 @@ def programs(seed, tier):
 def flags(classes):
     """Command-line options for a set of output classes; `h` (and several .c files) come
     from splitting the generated C with -Csmax."""
-    f = [worlds.OUT_FLAG[c] for c in classes if c not in ("h", "R")]
+    f = [worlds.OUT_FLAG[c] for c in classes if c not in ("h", "R", "cpph", "cppas")]
+    if "cpph" in classes or "cppas" in classes:	# one option, two files: <name>_cc.h and <name>_as.as
+        f.append("-Fc++")
     if "h" in classes:
         f.append("-Csmax=5")
     if "R" in classes:		# pseudo class: outputs go to an (existing) directory given with -R
@@ -207,6 +209,12 @@ def judge(plan, r, ref):
     return None, "", fired
 
 
+CPP_SRC = b'''#include "axllib"
+Foo: with { bar: SingleInteger -> SingleInteger; baz: (SingleInteger, SingleInteger) -> SingleInteger } == add {
+	bar(n: SingleInteger): SingleInteger == n + 1;
+	baz(a: SingleInteger, b: SingleInteger): SingleInteger == a * b;
+}
+'''
 FOREIGN = ["/* written by hand */\nint x;\n", "", "\0" * 64]
 EXT = {"ao": ".ao", "fm": ".fm", "c": ".c", "lsp": ".lsp", "asy": ".asy", "ap": ".ap", "ai": ".ai"}
 
@@ -429,6 +437,13 @@ def main(argv):
             r4 = reference(binfo, scratch, name, text, outcl)
             if r4.rc == 0 and any(k.startswith("out/") for k in r4.files):
                 progs.append((name, text, r4, outcl))
+        # configuration with the C++ stub generator (-Fc++: <name>_cc.h and <name>_as.as)
+        cppcl = ["cpph", "cppas"]
+        r5 = reference(binfo, scratch, "cx.as", CPP_SRC, cppcl)
+        if r5.rc == 0 and set(cppcl) <= set(worlds.cls_of(k) for k in r5.files):
+            progs.append(("cx.as", CPP_SRC, r5, cppcl))
+        else:
+            skipped.append("cx.as[-Fc++]")
         # third configuration: two files in one invocation, the fault aimed at the SECOND file's output
         multi_cl = ["ao", "fm", "c", "lsp"]
         singles = [p for p in progs if p[3] is classes]
@@ -564,7 +579,7 @@ def main(argv):
             "rule": "fault plans enumerated per program and output class (ENOSPC at boundary/seeded byte budgets, EIO at a write, failure only at close, failing open, directory in the way, failing mkdir, seeded subsets) plus the fault-free plan; non-trivial = a fault actually fired (F lines of the event log) ; distinct = distinct (program, plan, event-log hash)",
             "samples": [{"program": progs[cases[i][0]][0], "plan": cases[i][1]} for i in range(0, done, max(1, done // 4))][:5],
             "programs": len(progs), "program_names": ["%s[%s]" % (p[0] if isinstance(p[0], str) else "+".join(p[0]), "+".join(p[3])) if len(p[3]) < 5 else p[0] for p in progs], "programs_skipped_not_compiling": skipped,
-            "output_classes": classes + ["h (with -Csmax=5, second configuration)"],
+            "output_classes": classes + ["h (with -Csmax=5, second configuration)", "cpph + cppas (-Fc++)"],
             "other_directory_input_cases": [{"command": d, "verdict": v or "ok"} for v, _, d, _ in od],
             "plans_planned": len(cases), "plans_run": done,
             "faults_configured": configured, "faults_fired": fired_n,
